@@ -46,7 +46,7 @@ def main():
         try:
             for prop in props:
                 t = time.time()
-                env = dict(os.environ, SIM_REPO=scratch)
+                env = dict(os.environ, SIM_REPO=scratch, SIM_OUT=scratch + '_out')
                 r = sh('./simcheck check %s --tier quick --no-selftest' % prop, cwd=VERIF, timeout=1800, env=env)
                 viol = [l for l in r.stdout.splitlines() if l.startswith('VIOLATION')]
                 classes = [l.split('class=')[1].split()[0] for l in r.stdout.splitlines() if l.strip().startswith('class=')]
@@ -54,6 +54,7 @@ def main():
                 print('%s %s exit=%d classes=%s (%.0fs)' % (mid, prop, r.returncode, classes, time.time() - t))
         finally:
             sh('git -C /repo worktree remove --force %s' % scratch)
+            sh('rm -rf %s_out' % scratch)
         results[mid] = {'breaks': meta.get('breaks'), 'checks': row,
                         'caught_by': sorted(p for p, v in row.items() if v['exit'] == 1)}
         json.dump(results, open(res_path, 'w'), indent=1, sort_keys=True)
